@@ -209,6 +209,23 @@ impl Client {
         Ok(response)
     }
 
+    /// Returns the address to connect to for the given authority: the authority itself if it names a port
+    ///   (`host:8080`, `[::1]:8080`), otherwise the authority with the scheme's default port.
+    fn with_default_port(authority: &str, default_port: u16) -> String {
+        // A colon inside the brackets of an IPv6 literal is not a port separator.
+        let after_bracket = authority
+            .rfind(']')
+            .map_or(authority, |index| &authority[index + 1..]);
+
+        match after_bracket.rsplit_once(':') {
+            // Several colons outside brackets: a bare IPv6 address, which cannot carry a port.
+            Some((rest, _)) if rest.contains(':') => format!("{}:{}", authority, default_port),
+            Some((_, port)) if !port.is_empty() => authority.to_string(),
+            Some(_) => format!("{}{}", authority, default_port),
+            None => format!("{}:{}", authority, default_port),
+        }
+    }
+
     /// Parses a URL into a URL struct.
     pub(crate) fn parse_url(url: impl AsRef<str>) -> Option<ParsedUrl> {
         let url = url.as_ref();
@@ -220,7 +237,7 @@ impl Client {
             let mut headers = Headers::new();
             headers.add(HeaderType::Host, host);
 
-            let host = format!("{}:80", host);
+            let host = Self::with_default_port(host, 80);
             let host = host.to_socket_addrs().ok()?.next()?;
 
             let (path, query) = path.split_once('?').unwrap_or((path, ""));
@@ -239,7 +256,7 @@ impl Client {
             let mut headers = Headers::new();
             headers.add(HeaderType::Host, host);
 
-            let host = format!("{}:443", host);
+            let host = Self::with_default_port(host, 443);
             let host = host.to_socket_addrs().ok()?.next()?;
 
             let (path, query) = path.split_once('?').unwrap_or((path, ""));
